@@ -4,6 +4,7 @@
 This module contains methods for exporting Kern files.
 """
 import math
+from fractions import Fraction
 from collections import defaultdict
 
 import numpy
@@ -143,8 +144,17 @@ class KernExporter(object):
             else:
                 structural_elements = elements_starting[~note_mask]
             # Put structural elements first (start with tandem elements, then measure elements, then notes and rests)
+            # grace notes come in rows of their own before the notes they embellish
+            grace_mask = np.array(
+                [isinstance(el, spt.GraceNote) for el in elements_starting],
+                dtype=bool,
+            )
             elements_starting = np.hstack(
-                (structural_elements, elements_starting[note_mask])
+                (
+                    structural_elements,
+                    elements_starting[grace_mask],
+                    elements_starting[note_mask & ~grace_mask],
+                )
             )
             for el in elements_starting:
                 add_row = True
@@ -198,25 +208,34 @@ class KernExporter(object):
             if "dots" in symbolic_duration.keys()
             else ""
         )
-        if "actual_notes" in symbolic_duration.keys() and "normal_notes":
-            kern_base = (
-                int(kern_base)
-                * symbolic_duration["actual_notes"]
-                / symbolic_duration["normal_notes"]
+        if (
+            symbolic_duration.get("actual_notes") is not None
+            and symbolic_duration.get("normal_notes") is not None
+        ):
+            # reciprocal value of the tuplet member: an integer if possible,
+            # otherwise the rational n%m
+            recip = Fraction(
+                int(kern_base) * symbolic_duration["actual_notes"],
+                symbolic_duration["normal_notes"],
             )
-            kern_base = str(kern_base)
+            if recip.denominator == 1:
+                kern_base = str(recip.numerator)
+            else:
+                kern_base = "{}%{}".format(recip.numerator, recip.denominator)
         return kern_base + dots
 
     def duration_to_kern(self, element: spt.GenericNote) -> str:
         if isinstance(element, spt.GraceNote):
-            if element.grace_type == "acciaccatura":
-                return "p"
-            else:
-                return "q"
+            # "q" marks a note without duration
+            return "q"
         else:
             if "type" not in element.symbolic_duration.keys():
-                warnings.warn(f"Element {element} has no symbolic duration type")
-                return "4"
+                # no note value: write the length as a rational reciprocal value
+                divs = int(self.part.quarter_duration_map(element.start.t))
+                recip = Fraction(4 * divs, int(element.duration))
+                if recip.denominator == 1:
+                    return str(recip.numerator)
+                return "{}%{}".format(recip.numerator, recip.denominator)
             return self.sym_dur_to_kern(element.symbolic_duration)
 
     def pitch_to_kern(self, element: spt.GenericNote) -> str:
@@ -274,6 +293,10 @@ class KernExporter(object):
         col_idx = self.vocstaff_map_dict[f"{voice}-{staff}"]
         markings = self.markings_to_kern(el)
         kern_el = duration + pitch + markings
+        if isinstance(el, spt.GraceNote):
+            # a row of its own
+            self.out_data[row_idx, col_idx] = kern_el
+            return
         if self.prev_note_time == el.start.t:
             if self.prev_note_col_idx == col_idx:
                 # Chords in Kern
